@@ -90,6 +90,19 @@ namespace embedded_pairing::bls12_381 {
         }
     }
 
+    /*
+     * Checks that a coordinate was written in its canonical form: reduced
+     * modulo q, with no stray bits apart from the flags that are allowed in
+     * the first byte of an encoding.
+     */
+    template <typename BaseField>
+    static bool coordinate_is_canonical(const BaseField& value, const uint8_t* encoded, uint8_t allowed_flags) {
+        uint8_t canonical[sizeof(BaseField)];
+        value.write_big_endian(canonical);
+        canonical[0] |= (encoded[0] & allowed_flags);
+        return memcmp(canonical, encoded, sizeof(BaseField)) == 0;
+    }
+
     template <typename Affine, bool compressed>
     bool Encoding<Affine, compressed>::decode(Affine& g, bool checked) const {
         if (checked && is_encoding_compressed(this->data[0]) != compressed) {
@@ -112,6 +125,9 @@ namespace embedded_pairing::bls12_381 {
 
         /* The "read_big_endian" method masks off the three control bits. */
         g.x.read_big_endian(&this->data[0]);
+        if (checked && !coordinate_is_canonical(g.x, &this->data[0], encoding_flags_compressed | encoding_flags_infinity | encoding_flags_greater)) {
+            return false;
+        }
 
         bool greater = ((this->data[0] & encoding_flags_greater) != 0);
         if constexpr(compressed) {
@@ -123,6 +139,9 @@ namespace embedded_pairing::bls12_381 {
                 return false;
             }
             g.y.read_big_endian(&this->data[sizeof(typename Affine::BaseFieldType)]);
+            if (checked && !coordinate_is_canonical(g.y, &this->data[sizeof(typename Affine::BaseFieldType)], 0)) {
+                return false;
+            }
             g.infinity = false;
         }
 
